@@ -21,7 +21,8 @@ EXPLANATION = (
     "terminated record per reaction; R5 sibling laws: for every format class and database code, the native class either refuses the exported type "
     "or its template is algebraically the law the format class uses (symbols unified through the registry names), including grain-delegated types; "
     "R6 export wiring: Network.export writes reactions.naunet in format 'naunet' on every path that continues to the configuration and sources, NetworkConfiguration records exactly that file/format and exports "
-    "binding energies / yields of every surface species, and 'naunet' maps to the class whose __format__ wrote the file.")
+    "binding energies / yields of every surface species, and 'naunet' maps to the class whose __format__ wrote the file; R10 BaseConfiguration.content writes each "
+    "of those tables (binding_energy, photon_yield, rate_modifier, ode_modifier, files, formats) whole -- the attribute, a copy, or an unfiltered key-by-key re-spelling.")
 ASSUMPTIONS = [
     "equality 'to printed precision' of particular numbers is a property of Python's float formatting, not decided",
     "blank-line handling of the reader is C07.R1",
@@ -32,6 +33,7 @@ RFILE = "naunet/reactions/reaction.py"
 NET = "naunet/network.py"
 CONF = "naunet/configuration.py"
 WRITER_FIELDS = ["idxfromfile", "REACTANTS", "PRODUCTS", "alpha", "beta", "gamma", "temp_min", "temp_max", "reaction_type", "source"]
+TAIL = ["alpha", "beta", "gamma", "temp_min", "temp_max", "reaction_type", "source"]      # the columns after the starred species middle
 NUMERIC = {"idxfromfile": "int", "alpha": "float", "beta": "float", "gamma": "float", "temp_min": "float", "temp_max": "float"}
 
 
@@ -48,6 +50,7 @@ def check(ctx):
     _r6(ctx, pkg)
     # the exported configuration carries the network's modifier tables whole (shared with C13.R7): a modifier dropped on the way into
     # naunet_config.toml makes the re-rendered project compute the unmodified law
+    _content_tables_whole(ctx, pkg, rm)
     from .c13 import _r7 as modifier_tables_whole
     ctx.absorb(modifier_tables_whole, "R9", only=lambda o: o.outcome != "MISSING")
 
@@ -169,12 +172,21 @@ def _r1_r2(ctx, w, r):
             continue
         ln, k, wraps = _split_src(simp(f.value))
         if ln is None:
-            ctx.unrec("R1", f"reader:{attr}", (RFILE, f.line), f"cannot trace self.{attr} to a field of the comma-split record: {show(simp(f.value))[:100]}")
+            # not one field through converters.  Which fields of the record does the value depend on?  A value computed from ANOTHER column
+            # (or from several) is visibly not the inverse of the writer; a value in which no field can be seen is not understood.
+            want_k = 0 if attr == "idxfromfile" else TAIL.index(attr) - len(TAIL)
+            ks = {x[2] for x in walk(simp(f.value)) if isinstance(x, tuple) and len(x) == 3 and x[0] == "item" and isinstance(x[2], int)
+                  and x[1][0] == "meth" and x[1][2] == "split" and x[1][3] == (("const", ","),)}
+            if ks and ks != {want_k}:
+                ctx.bad("R1", f"reader:{attr}", (RFILE, f.line), f"self.{attr} is not read back from the one field the writer puts {attr} into: it is computed from field(s) {sorted(ks)} of the record",
+                        expected=f"field {want_k} through its converter", found=show(simp(f.value))[:100])
+            else:
+                ctx.unrec("R1", f"reader:{attr}", (RFILE, f.line), f"cannot trace self.{attr} to a field of the comma-split record: {show(simp(f.value))[:100]}")
             continue
         line = ln
         pos[attr] = (k, wraps, f)
     # expected positions (from the end, because of the starred middle)
-    tail = ["alpha", "beta", "gamma", "temp_min", "temp_max", "reaction_type", "source"]
+    tail = TAIL
     for i, attr in enumerate(tail):
         if attr in pos:
             k = pos[attr][0]
@@ -439,6 +451,64 @@ def render_reads_only(ctx, pkg, rule):
         ctx.ok(rule, "RenderCommand.handle renders the network as read", (RENDER_, h.lineno), f"no edit of {sorted(nets)} between Network(..) and the rendering")
 
 
+EXPORTED_TABLES = {"binding_energy": "_bindingenergy", "photon_yield": "_photonyield", "rate_modifier": "_ratemodifier", "ode_modifier": "_odemodifier",
+                   "files": "_filenames", "formats": "_formats"}
+
+
+def _content_tables_whole(ctx, pkg, rm):
+    """R10: the tables the configuration object holds reach naunet_config.toml WHOLE: what `content` stores under binding_energy / photon_yield /
+    rate_modifier / ode_modifier / files / formats is the stored attribute itself, a copy, or a key-by-key re-spelling ({str(k): v for k, v in
+    T.items()}) without a filter -- an entry dropped here (a yield / modifier of 0 by a truthiness test) silently gets the default law back on re-render.
+    One-expression helper functions of the module are read as the expression they return."""
+    ci = pkg.cls("BaseConfiguration")
+    fn = ci.methods.get("content")
+    if fn is None:
+        ctx.missing("R10", "BaseConfiguration.content", (CONF, ci.node.lineno), "the configuration writer vanished")
+        return
+    ctx.saw(CONF, "BaseConfiguration.content")
+    fl = Flow(fn, CONF, consts=rm.module_consts(CONF), resolver=lambda name: pkg.resolve("BaseConfiguration", name)[1] if name.startswith("_") and not name.startswith("__") else None)
+
+    def through_helpers(v, depth=0):
+        """f(T) with f a one-return function of this module -> its returned expression with the parameter bound"""
+        if depth < 3 and v[0] == "call" and v[1][0] == "global" and (CONF, v[1][1]) in pkg.functions and not v[3]:
+            callee = pkg.functions[(CONF, v[1][1])]
+            params = [a.arg for a in callee.args.args]
+            sub = Flow(callee, CONF, consts=rm.module_consts(CONF))
+            rets = [f for f in sub.facts if f.kind == "return"]
+            other = [f for f in sub.facts if f.kind not in ("return", "init")]
+            if len(rets) == 1 and not rets[0].guards and not other and len(params) == len(v[2]):
+                from ..valueflow import subst
+                return through_helpers(simp(subst(simp(rets[0].value), {("param", p_): a for p_, a in zip(params, v[2])})), depth + 1)
+        return v
+    n = 0
+    for f in fl.facts:
+        if f.kind != "store" or f.index is None or f.index[0] != "const" or f.index[1] not in EXPORTED_TABLES:
+            continue
+        key, attr = f.index[1], EXPORTED_TABLES[f.index[1]]
+        n += 1
+        T = ("attr", SELF, attr)
+        v = through_helpers(simp(f.value))
+        while v[0] == "copy" or (v[0] == "call" and v[1] in (("global", "dict"), ("global", "list")) and len(v[2]) == 1 and not v[3]):
+            v = v[1] if v[0] == "copy" else v[2][0]
+        k = f"BaseConfiguration.content[{key!r}]"
+        if v == T:
+            ctx.ok("R10", k, (CONF, f.line), f"self.{attr} is written whole")
+            continue
+        if v[0] == "comp" and len(v[3]) == 1:
+            tg, it, ifs = v[3][0]
+            src_ok = it in (T, ("meth", T, "items", (), ()))
+            if src_ok and ifs:
+                ctx.bad("R10", k, (CONF, f.line), f"entries of self.{attr} are filtered out on the way into naunet_config.toml ({'; '.join(show(c)[:50] for c in ifs)}): a value the filter "
+                        "rejects (0, 0.0, '' ..) is a setting the user made, and the re-rendered project silently computes with the default instead",
+                        expected=f"every entry of self.{attr}", found=show(v)[:120])
+                continue
+            if src_ok and not ifs:
+                ctx.ok("R10", k, (CONF, f.line), f"every entry of self.{attr} is written (keys re-spelled)")
+                continue
+        ctx.unrec("R10", k, (CONF, f.line), f"cannot see that self.{attr} reaches the configuration file whole: {show(v)[:120]}")
+    ctx.floor("R10", "exported tables written by BaseConfiguration.content", n, 6, (CONF, fn.lineno))
+
+
 def _refusal_propagates(ctx, pkg):
     """A refused type stays an ERROR of the rendering: no `try` around a rateexpr(..) call in the renderer swallows the exception and goes
     on with a substitute (every handler of such a try must end by raising).  Positive evidence only: a try statement that is there."""
@@ -644,3 +714,9 @@ MUTANTS += [
     {"name": "config-loop-user-values-only", "file": CONF, "old": _CF_OLD, "new": _cf_loop(" or not sp._binding_energy"), "rules": ["R6"]},
     {"name": "writer-table-beta-gamma-swapped", "edits": [{"file": RFILE, "old": _WR_OLD, "new": _WR_NEW}, {"file": RFILE, "old": _WR_CLS, "new": _wr_table("gamma", "beta")}], "rules": ["R1"]},
 ]
+MUTANTS.append({"name": "reader-bound-from-two-fields", "file": RFILE, "old": "        self.temp_min = float(lt)\n        self.temp_max = float(ut)\n        self.idxfromfile = int(idx)",
+                "new": "        self.temp_min = min(float(lt), float(ut))\n        self.temp_max = float(ut)\n        self.idxfromfile = int(idx)", "rules": ["R1"]})
+MUTANTS.append({"name": "content-drops-falsy-modifiers", "file": CONF, "old": "            str(key): value for key, value in self._ratemodifier.items()\n",
+                "new": "            str(key): value for key, value in self._ratemodifier.items() if value\n", "rules": ["R10"]})
+BENIGN.append({"name": "content-tables-copied", "file": CONF, "old": '        chem_species["photon_yield"] = self._photonyield\n',
+               "new": '        chem_species["photon_yield"] = dict(self._photonyield)\n'})
